@@ -445,6 +445,19 @@ impl CaseEnv {
             }
         }
         write_tree(&base, &case.extra);
+        // modification times are part of the pre-state, not an accident of how fast the files were written:
+        // sources at the sentinel time, pre-existing outputs 100 s later (built after the last edit, then gone stale
+        // through a dependency) - code that looks at mtimes behaves the same in every exploration and replay
+        for i in 0..n {
+            touch_at(&base.join(src_name(i)), 0);
+            let o = base.join(out_name(i));
+            if std::fs::symlink_metadata(&o).is_ok() {
+                touch_at(&o, 100);
+                if let Ok(real) = std::fs::canonicalize(&o) {
+                    touch_at(&real, 100);
+                }
+            }
+        }
     }
     pub fn config(&self, case: &Case) -> Config {
         Config {
@@ -797,6 +810,13 @@ fn alias_cases(proj: &Proj, thorough: bool) -> Vec<Case> {
         only_links.insert(format!("links/{}.txt.txtpp", NAMES[i]), Node::Link(format!("../{}.txt.txtpp", NAMES[i])));
     }
     v.push(mk(vec!["links"], all.clone(), only_links, false));
+    // a link with a source name whose target has none (the run fails; it must still end): named, scanned, and next to real work
+    let mut bad = Tree::new();
+    bad.insert("tpl/z.in".into(), Node::File(b"z\n".to_vec()));
+    bad.insert("z.txt.txtpp".into(), Node::Link("tpl/z.in".into()));
+    v.push(mk(vec!["z.txt"], vec![], bad.clone(), false));
+    v.push(mk(vec!["."], all.clone(), bad.clone(), false));
+    v.push(mk(vec!["a.txt", "z.txt.txtpp"], vec![0], bad, false));
     // ... and a directory link to the project directory inside an otherwise empty directory, scanned recursively
     let mut dir_link = Tree::new();
     dir_link.insert("outer".into(), Node::Dir);
